@@ -316,8 +316,14 @@ func fixedStringOne(c *chk, in string) {
 			c.bad(sec, "fixedn-canonical-not-stable:ToString", in, rank, fmt.Sprintf("%q then %q", canon, c2))
 		}
 	}
+	if err == nil && strings.Contains(s[strings.IndexByte(s+".", '.'):], "-") {
+		c.note("fixedn_FromString_accepts_a_minus_sign_inside_the_fraction", 1)
+	}
 	if p == 8 {
 		f, ferr := fixedn.Fixed8FromString(s)
+		if ferr == nil && err == nil && !v.IsInt64() {
+			c.note("fixedn_Fixed8FromString_wraps_values_outside_int64_without_error", 1)
+		}
 		st.Calls.Inc()
 		st.Evals.Inc()
 		if (ferr == nil) != (err == nil) {
@@ -482,6 +488,11 @@ func init() {
 				p := p
 				out = append(out, func() {
 					fixedStringOne(c, fmt.Sprintf("%d|", p))
+					if p == 8 {
+						for _, s := range []string{"92233720368.54775807", "92233720368.54775808", "92233720369", "-92233720368.54775808", "-92233720368.54775809", "99999999999999999999"} {
+							fixedStringOne(c, "8|"+s)
+						}
+					}
 					allStrings("019.-", maxLen, func(s string) { fixedStringOne(c, fmt.Sprintf("%d|%s", p, s)) })
 				})
 			}
